@@ -441,6 +441,18 @@ impl<'r> Eng<'r> {
                 }
                 self.offsets.push((self.generation, *off, ev.clone()));
                 self.model.apply_store(ev);
+                // C04, directly: a stored non-ephemeral event is found by id, byte for byte, right away
+                if !is_ephemeral(ev.sem.kind) && self.model.r.contains_key(&ev.sem.id) {
+                    let store = self.store.as_ref().unwrap();
+                    let got = catch(|| store.get_event_by_id(Id::from_bytes(ev.sem.id)).map(|o| o.map(|e| e.as_bytes().to_vec())));
+                    match got {
+                        Ok(Ok(Some(b))) if b == ev.bytes => {}
+                        Ok(Ok(Some(_))) => self.flag(&["C04"], "stored-event-reads-back-different-by-id", &format!("event {} (kind {})", ev.short(), ev.sem.kind)),
+                        Ok(Ok(None)) => self.flag(&["C04"], "stored-event-not-found-by-id", &format!("store_event returned Ok({off}) for the non-ephemeral event {} (kind {}) but get_event_by_id finds nothing", ev.short(), ev.sem.kind)),
+                        Ok(Err(e)) => self.flag(&["C04"], "stored-event-lookup-error", &format!("event {}: {e}", ev.short())),
+                        Err(p) => self.flag(&["C04"], "stored-event-lookup-panic", &p.message),
+                    }
+                }
                 let _ = self.removed.remove(&ev.sem.id);
                 opk = if ev.sem.kind == 5 { OpKind::StoreOkDel } else if addr_of(&ev.sem).is_some() { OpKind::StoreOkAddr } else { OpKind::StoreOkPlain };
             }
